@@ -29,7 +29,7 @@
 From Coq Require Import List ZArith NArith Bool Permutation.
 From Astisub Require Import Kit.Base Kit.Str Kit.Float64 Kit.Float64x Kit.Xml Model.Dur Model.Ttml
   Proofs.DurProofs Proofs.TtmlBase Proofs.TtmlSpec Proofs.TtmlTime Proofs.TtmlFloat Proofs.TtmlTimeAll
-  Proofs.TtmlLines Proofs.TtmlRefs Proofs.TtmlDocSpec.
+  Proofs.TtmlLines Proofs.TtmlPara Proofs.TtmlRefs Proofs.TtmlDocSpec.
 Import ListNotations.
 Open Scope Z_scope.
 
@@ -85,6 +85,19 @@ Print Assumptions C03_lines.
 Theorem C03_lines_tokens : forall ls : list (list trun), ls <> [] -> lines_of (lines_toks ls) = ls.
 Proof. exact lines_of_lines_toks. Qed.
 Print Assumptions C03_lines_tokens.
+
+(* a whole paragraph: begin/end through their parsed values (any syntax, see the time theorems), any
+   rendering of the lines, references resolved *)
+Theorem C03_paragraph : forall (styles regions : list (str * tstyle)) fr tr nm al gs wl b e ta,
+  content_ok gs wl = true ->
+  dur_attr s_begin al = Some (Some b) -> dur_attr s_end al = Some (Some e) -> tt_read_attrs al = Some ta ->
+  ref_known regions (attr_str s_region al) = true -> ref_known styles (attr_str s_style al) = true ->
+  forallb (group_style_ok styles) gs = true ->
+  read_p styles regions fr tr (XElem nm al (render_content gs wl)) =
+  Ok (mkItem (ttml_duration b fr tr) (ttml_duration e fr tr) (opt_ref (attr_str s_region al)) (opt_ref (attr_str s_style al)) ta
+             (lines_of (flat_map group_toks gs))).
+Proof. exact read_p_rendered. Qed.
+Print Assumptions C03_paragraph.
 
 (* ---------------- references, parents, language ---------------- *)
 Theorem C03_parents : forall root d, read_ttml root = Ok d -> NoDup (map elem_id (style_elems root)) ->
